@@ -475,6 +475,12 @@ func genConsCase(r *Rand, tier string, w *bufio.Writer) {
 	if slowQuorum {
 		nv = 4
 	}
+	// "two cheaters" style: seven validators, the two lightest ones fork; the heavier of the two has the larger id,
+	// so that canonical order (weight, then id) differs from id order
+	twoCheaters := !slowQuorum && r.Chance(1, 8)
+	if twoCheaters {
+		nv = 7
+	}
 	ids := make([]uint64, nv)
 	ws := make([]uint64, nv)
 	perm := r.Perm(20)
@@ -499,11 +505,25 @@ func genConsCase(r *Rand, tier string, w *bufio.Writer) {
 		}
 		total += ws[i]
 	}
+	if twoCheaters {
+		total = 0
+		for i := range ids {
+			ws[i] = 5
+			total += 5
+		}
+		lo, hi := ids[nv-2], ids[nv-1]
+		if lo > hi {
+			lo, hi = hi, lo
+		}
+		ids[nv-2], ids[nv-1] = hi, lo // ids[nv-2] has the larger id
+		ws[nv-2], ws[nv-1] = 2, 1     // … and the larger weight: canonical order lists it first
+		total = total - 10 + 3
+	}
 	// in half of the scenarios one validator is "needed": it holds more than one third of the weight, so no
 	// quorum forms without it; when it is also the lagging validator its frame-jumping roots are the ones
 	// that decide several frames within one Process call
 	needed := -1
-	if nv >= 2 && total < 1<<29 && !slowQuorum && r.Chance(1, 2) {
+	if nv >= 2 && total < 1<<29 && !slowQuorum && !twoCheaters && r.Chance(1, 2) {
 		needed = r.Intn(nv)
 		others := total - ws[needed]
 		ws[needed] = others/2 + 1 + uint64(r.Intn(int(others/2)+1))
@@ -519,7 +539,10 @@ func genConsCase(r *Rand, tier string, w *bufio.Writer) {
 	emit("vals %s", valsStr(ids, ws))
 	// cheaters: weight strictly below one third
 	cheater := map[uint64]bool{}
-	if r.Chance(2, 3) {
+	if twoCheaters {
+		cheater[ids[nv-1]] = true
+		cheater[ids[nv-2]] = true
+	} else if r.Chance(2, 3) {
 		var cw uint64
 		for _, i := range r.Perm(nv) {
 			if 3*(cw+ws[i]) < total && r.Chance(1, 2) {
